@@ -1243,4 +1243,102 @@ theorem literalInt_okStable : OkStable literalInt := by
             simp only
             exact literalIntWith_okStable octDigit? octDigit_blind 8 (b2 :: c) q s s' tok h hs
 
+/-! ## the digit branch of `token_intermediate` -/
+
+/-- `literal_float` stops at once: digits only, then neither a fraction nor an exponent -/
+def PlainInt (d : Nat) (r : Bytes) : Prop :=
+  (mantissaNF d r).2.1 = false ∧ (opt (floatExponent (mantissaNF d r).1) (mantissaNF d r).1).2 = none
+
+theorem floatExponent_stop {s' : Bytes} (hs : HeadStop s') : ∃ e, floatExponent s' = .error e := by
+  have := floatExponent_errStable [] [] s' (.lex (.rest []) .UnexpectedBytes) (by simp [floatExponent, wrongChars]) hs
+  simpa using this
+
+theorem opt_none_of_error {α : Type} {g : LexResult α} {x : Bytes} {e : LexErr} (h : g = .error e) :
+    opt g x = (x, none) := by rw [h]; rfl
+
+theorem opt_snd_none {α : Type} {g : LexResult α} {x : Bytes} (h : (opt g x).2 = none) : ∃ e, g = .error e := by
+  cases g with
+  | ok ra => obtain ⟨r, a⟩ := ra; simp [opt] at h
+  | error e => exact ⟨e, rfl⟩
+
+theorem plain_stable (d : Nat) (p s s' : Bytes) (h : PlainInt d (p ++ s)) (hs : HeadStop s') : PlainInt d (p ++ s') := by
+  unfold PlainInt at h ⊢
+  rw [mantissaNF_eq] at h ⊢
+  rcases spanDigits_tail p s s' hs with ⟨p2, hp2, h1, h2⟩ | h2
+  · rw [h1] at h
+    rw [h2]
+    cases p2 with
+    | nil => exact absurd rfl hp2
+    | cons ch p2 =>
+      simp only [List.cons_append, mantStep] at h ⊢
+      by_cases hc : ch.toNat = 46
+      · simp only [if_pos hc] at h; exact absurd h.1 (by simp)
+      · simp only [if_neg hc] at h ⊢
+        refine ⟨by trivial, ?_⟩
+        obtain ⟨e, he⟩ := opt_snd_none h.2
+        obtain ⟨e', he'⟩ := floatExponent_errStable (ch :: p2) s s' e (by simpa using he) hs
+        simp only [List.cons_append] at he'
+        rw [opt_none_of_error he']
+  · rw [h2, mantStep_stop _ _ hs]
+    refine ⟨rfl, ?_⟩
+    obtain ⟨e, he⟩ := floatExponent_stop hs
+    simp only
+    rw [opt_none_of_error he]
+
+/-- `literal_float` had parsed a fraction or an exponent and still answered "not my token": the literal is directly
+followed by `x` (`1.xxx`, `2.0fx`, `1e5x`).  The text is then lexed again as an integer literal, whose extent
+depends on text that can lie several tokens further on. -/
+def FloatGaveUpOnX (x : Bytes) : Prop :=
+  ∃ i2 m, floatMantissa x = .ok (i2, m) ∧ ¬ (m.1 = false ∧ (opt (floatExponent i2) i2).2 = none) ∧
+    literalFloat x = .error (.lex (.rest x) .OtherTokenBytes)
+
+/-- the digit branch of `token_step` -/
+def numTok (input : Bytes) : LexResult Token :=
+  match literalFloat input with
+  | .ok x => .ok x
+  | .error (.lex pos .OtherTokenBytes) =>
+    if pos.len = input.length then literalInt input else .error (.panic "other-token-len")
+  | .error e => .error e
+
+theorem numTok_stable (b : UInt8) (d : Nat) (hd : decDigit? b = some d) (c q s s' : Bytes) (tok : Token)
+    (h : numTok (b :: (c ++ (q ++ s))) = .ok (q ++ s, tok)) (hnx : ¬ FloatGaveUpOnX (b :: (c ++ (q ++ s))))
+    (hs : HeadStop s') : numTok (b :: (c ++ (q ++ s'))) = .ok (q ++ s', tok) := by
+  unfold numTok at h ⊢
+  cases hf : literalFloat (b :: (c ++ (q ++ s))) with
+  | ok x =>
+    rw [hf] at h
+    simp only [Except.ok.injEq] at h
+    subst h
+    rw [literalFloat_okStable_digit b d hd c q s s' tok hf hs]
+  | error e =>
+    rw [hf] at h
+    have hother := literalFloat_other (b :: (c ++ (q ++ s)))
+    rw [hf] at hother
+    cases e with
+    | panic site => cases h
+    | lex pos reason =>
+      cases reason <;> try (cases h)
+      -- OtherTokenBytes
+      simp only [OtherAtStart] at hother
+      subst hother
+      simp only [ErrAt.len, if_true] at h
+      -- it was the plain exit
+      have hplain : PlainInt d (c ++ (q ++ s)) := by
+        by_cases hp : PlainInt d (c ++ (q ++ s))
+        · exact hp
+        · exfalso
+          apply hnx
+          exact ⟨_, _, floatMantissa_digit b _ d hd, hp, hf⟩
+      have hplain' := plain_stable d (c ++ q) s s' (by simpa [List.append_assoc] using hplain) hs
+      simp only [List.append_assoc] at hplain'
+      have hf' : literalFloat (b :: (c ++ (q ++ s'))) = otherTokenChars (b :: (c ++ (q ++ s'))) := by
+        rw [literalFloat_digit b _ d hd]
+        unfold floatTail
+        unfold PlainInt at hplain'
+        rw [if_pos hplain']
+      rw [hf']
+      simp only [otherTokenChars, ErrAt.len, if_true]
+      have := literalInt_okStable (b :: c) q s s' tok (by simpa using h) hs
+      simpa using this
+
 end RsslVerif.Lemmas.LexStable
